@@ -46,7 +46,10 @@ def rule_a(ctx, init, tabs):
         outer, inner, elt, st = t
         i, j = norm(outer.generators[0].target), norm(inner.generators[0].target)
         ok = norm(outer.generators[0].iter) == "range(self.num_patches[0])" and norm(inner.generators[0].iter) == "range(self.num_patches[1])"
-        ctx.ob(R, init.qname, f"{name}: outer index over num_patches[0], inner over num_patches[1]", ok, f"{norm(outer.generators[0].iter)} / {norm(inner.generators[0].iter)}", st)
+        its = (norm(outer.generators[0].iter), norm(inner.generators[0].iter))
+        swapped = its == ("range(self.num_patches[1])", "range(self.num_patches[0])")
+        # iteration over anything else than the two ranges (pre-computed per-axis lists, ...) is not read by this rule: undecided
+        ctx.ob(R, init.qname, f"{name}: outer index over num_patches[0], inner over num_patches[1]", ok, f"{its[0]} / {its[1]}" if swapped else "", st, evidence=swapped)
         # axis discipline inside slices / corner pairs
         bad = []
         for e in ast.walk(elt):
@@ -284,9 +287,73 @@ def rule_d(ctx, init):
 NAMES = {}
 
 
+def fold_tables(init, ctx_node=None):
+    """Statement-wise symbolic fold of the constructor on a 2 x 3 patch grid of a symbolic 2-d image (statements outside the folding
+    language are skipped): {table name: term}."""
+    from ..fold import Folder, Obj, Opaque, Raised, Refuse, Sym
+
+    fo = Folder(symbolic=True)
+    fo.func_stack.append(ctx_node if ctx_node is not None else init.node)   # names resolve as in the repository's constructor
+    fo.fold_all_methods = True
+    cs = Obj("CS", {"num_voxels": lambda a, k: Sym("NV", a, k), "voxel": lambda a, k: Sym("VOX", a, k), "coordinate": lambda a, k: Sym("COORD", a, k)})
+    base = Obj("base", {"space_dim": 2, "time_dim": 0, "dimensions": [Opaque("f", "D0"), Opaque("f", "D1")], "indexing": "ij", "coordinatesystem": cs,
+                        "num_voxels": [Opaque("int", "N0"), Opaque("int", "N1")], "origin": Opaque("coord", "ORIGIN"), "subregion": lambda a, k: Sym("SUB", a, k)})
+    so = Obj("self", {"__class__": "Patches"})
+    p = init.params
+    env = {p[0]: so, p[1]: base, p[2]: [2, 3]}
+    if len(p) > 3:
+        env[p[3]] = {"rel_overlap": Opaque("f", "REL")}
+    for st in init.node.body:
+        try:
+            fo.stmt(st, env)
+        except (Refuse, Raised):
+            continue
+    return {k: v for k, v in so.fields.items() if k in TABLES}
+
+
+def same_term(a, b):
+    """Equal normal forms, or -- entry by entry -- equal polynomials over the non-arithmetic sub-terms."""
+    from ..fold import Arr, Sym
+    from ..terms import nf
+
+    if nf(a) == nf(b):
+        return True
+    a = a.data if isinstance(a, Arr) else a
+    b = b.data if isinstance(b, Arr) else b
+    if isinstance(a, (list, tuple)) and isinstance(b, (list, tuple)):
+        return len(a) == len(b) and all(same_term(x, y) for x, y in zip(a, b))
+    if isinstance(a, slice) and isinstance(b, slice):
+        return all(same_term(x, y) for x, y in ((a.start or 0, b.start or 0), (a.stop, b.stop), (a.step or 1, b.step or 1)))
+    if isinstance(a, Sym) and isinstance(b, Sym) and a.fn == b.fn and a.fn in ("SUB", "VOX", "COORD", "np.array", "np.asarray") and len(a.args) == len(b.args) and set(a.kw) == set(b.kw):
+        return all(same_term(x, y) for x, y in zip(a.args, b.args)) and all(same_term(a.kw[k], b.kw[k]) for k in a.kw)
+    try:
+        atomize = lambda n: norm(n) if isinstance(n, (ast.Call, ast.Subscript, ast.Attribute)) else None  # noqa: E731
+        pa = ToPoly(atomize=atomize)(ast.parse(nf(a), mode="eval").body)
+        pb = ToPoly(atomize=atomize)(ast.parse(nf(b), mode="eval").body)
+        return pa == pb
+    except (NotPolynomial, SyntaxError, ValueError):
+        return False
+
+
 def run(ctx):
     ctx.consult(MOD)
     init = ctx.model.func(MOD, "Patches.__init__")
+    tc = table_comps(init)
+    plain = len(tc) == len(TABLES) and all(norm(o.generators[0].iter) == "range(self.num_patches[0])" and norm(i_.generators[0].iter) == "range(self.num_patches[1])"
+                                           for o, i_, _e, _s in tc.values())
+    if not plain:
+        # the tables are not written as nested comprehensions any more: if, folded on a 2 x 3 grid, each of them has the term of the
+        # documented construction, the rules below are applied to that construction instead (it computes the same tables)
+        from ..srcmodel import reference_func
+        from .c19_reference import REFERENCE_INIT
+
+        ref = reference_func(init, REFERENCE_INIT)
+        got, want = fold_tables(init), fold_tables(ref, init.node)
+        ctx.need(set(want) == set(TABLES), f"C19 reference construction does not fold ({sorted(set(TABLES) - set(want))})")
+        diff = [t for t in TABLES if t not in got or not same_term(got[t], want[t])]
+        ctx.stat("tables_equal_to_documented_construction", len(TABLES) - len(diff))
+        if not diff:
+            init = ref
     # the short local names of the constructor are located through the attributes that mirror them / their defining expressions
     am = AM(init)
     found = [am.has(init.node, t) is not None for t in (
